@@ -129,7 +129,7 @@ class Ctx:
         self.fn, self.job = fn, job
         self.tid, self.aid = fn.tid, fn.aid
         self.T = fn.tid
-        self.n = lanes(fn.tid, fn.aid)
+        self.n = lanes(fn.tid, fn.aid) if fn.aid else 1
         self.w = TYPES[fn.tid][2]
         self.U = UW[self.w]
         self.isfloat = TYPES[fn.tid][3] == "f"
@@ -187,11 +187,13 @@ def bind(fn, sigjson, tinfo, native=False):
             ctx.args.append(a)
             ctx.ir_order.append(("ptr" if ip["type"].endswith("*") else "value", ip["name"], ip["type"]))
         elif pt.kind == "scalar":
-            a = Arg("S", pt.tid, None, scalar=ip["name"])
+            byref = ip["type"].endswith("*")
+            a = Arg("S", pt.tid, None, scalar=("(*%s)" % ip["name"]) if byref else ip["name"])
             a.cname = ip["name"]
             a.ctype = ip["type"]
+            a.is_bool = getattr(pt, "is_bool", False)
             ctx.args.append(a)
-            ctx.ir_order.append(("scalar", ip["name"], ip["type"]))
+            ctx.ir_order.append(("ptr" if byref else "scalar", ip["name"], ip["type"]))
         elif pt.kind == "mem":
             a = Arg("P", pt.tid, None, scalar=ip["name"])
             a.cname, a.ctype, a.const = ip["name"], ip["type"], pt.const
@@ -270,7 +272,10 @@ def harness_text(ctx, name, hname="harness"):
                     L.append("  %s OBS_%d_%d = %s;" % ({"u": UW.get(nb * 8, "u8"), "f": "f%d" % (nb * 8), "p": "u64"}[lk], k, j, e))
                     obs.append(("OBS_%d_%d" % (k, j), k, kind, off, nb, lk))
         elif kind in ("scalar", "value"):
-            L.append("  %s O%d;" % (ctype, k))
+            if ctype == "u1":   # an i1 holds 0 or 1; an uninitialised _Bool in CBMC may hold any byte
+                L.append("  u1 O%d = (nondet_u8() & 1) != 0;" % k)
+            else:
+                L.append("  %s O%d;" % (ctype, k))
             call.append("O%d" % k)
             for j, (off, nb, lk, e) in enumerate(leaves(ctype, "O%d" % k, ctx.job)):
                 L.append("  %s OBS_%d_%d = %s;" % ({"u": UW.get(nb * 8, "u8"), "f": "f%d" % (nb * 8), "p": "u64"}[lk], k, j, e))
